@@ -106,8 +106,13 @@ def make_case(seed: int, stream: int):
             if got:
                 return got + (kinds[stream],)
     wmc = stream % 3 == 2
+    twins = stream % 6 == 1     # same-named externs in unrelated namespaces behind two ports
     gen, ent, enc, info = cfggen.gen_shell_case(rng, want_multiclient=wmc, hostile_text=True,
-                                                mc_shape=stream // 3)
+                                                mc_shape=stream // 3, twins=twins)
+    if twins:
+        enc['provides'] = {'sts': 'NONE', 'mts': 'ALL'}
+        enc['requires'] = {'sts': 'NONE', 'mts': 'ALL'}
+        return gen, ent, enc, info, 'twin-names'
     return gen, ent, enc, info, 'random-mc' if wmc else 'random'
 
 
